@@ -43,6 +43,6 @@ dst = os.path.join(V, 'seeded', sid); os.makedirs(dst, exist_ok=True)
 for f in os.listdir(src): shutil.copy(os.path.join(src, f), os.path.join(dst, f))
 first = [l for l in notes.splitlines() if l.strip()][0].lstrip('# ').strip()
 files = re.findall(r'^\+\+\+ b/(\S+)', open(os.path.join(src, 'patch.diff')).read(), re.M)
-json.dump({'id': sid, 'property': prop, 'round': 2, 'summary': first, 'files': files, 'demo_files': [{'file': t, 'place_at': place(t) + t} for t in tests],
+json.dump({'id': sid, 'property': prop, 'round': int(os.environ.get('SEED_ROUND', '2')), 'summary': first, 'files': files, 'demo_files': [{'file': t, 'place_at': place(t) + t} for t in tests],
            'confirmed': res, 'base_commit': subprocess.check_output(['git', '-C', '/repo', 'rev-parse', '--short', 'HEAD'], text=True).strip(),
            'demo_output_with_mutant': demo_out}, open(os.path.join(dst, 'meta.json'), 'w'), indent=1)
